@@ -8,10 +8,11 @@ BASE = {
     "mpo": 2.0, "mpo_identity": 0.3, "mps_random": 3.0, "mps_product": 0.8, "mpdm_from_mps": 0.6,
     "add": 3.0, "scale": 1.5, "unary": 1.5, "apply": 2.5,
     "canonicalise": 1.2, "ensure": 1.2, "move_qnidx": 1.5, "compress_lossless": 1.0, "normalize": 0.5,
-    "truncate": 0.8, "observe": 2.0, "drop": 0.3, "alias_mutate": 0.0, "spill": 0.0, "swap": 0.0,
+    "truncate": 0.8, "observe": 2.0, "drop": 0.3, "alias_mutate": 0.0, "spill": 0.0, "swap": 0.0, "observe2": 0.3,
 }
 
 TWEAKS = {
+    "C07": {"observe2": 9.0, "observe": 2.0, "truncate": 0.3, "add": 2.0, "apply": 2.0, "mpdm_from_mps": 1.2, "swap": 0.5, "unary": 1.0},
     "C01": {"mpo": 8.0, "swap": 8.0, "unary": 1.5, "mps_random": 0.5, "add": 0.5, "apply": 1.0, "observe": 1.0, "truncate": 0.0, "canonicalise": 0.3,
             "ensure": 0.3, "compress_lossless": 0.5, "move_qnidx": 0.3, "scale": 0.3, "normalize": 0.0, "mps_product": 0.2, "mpdm_from_mps": 0.0},
     "C03": {"add": 4.5, "apply": 3.5, "move_qnidx": 2.5, "observe": 3.0, "truncate": 0.2},
